@@ -138,6 +138,10 @@ def run(spec_dirs, module, cfg, workers=8, timeout=600, extra=None, simulate=Non
     m = re.search(r'Action property (\S+) is violated', out) or m
     if m and not r.violation:
         r.violation = m.group(1)
+    m2 = re.search(r'Postcondition (\S+) .*? is false', out, re.S)
+    if m2 and not r.violation:
+        r.violation = m2.group(1)
+        r.ok = False
     if 'Temporal properties were violated' in out and not r.violation:
         r.violation = 'temporal'
     if 'Deadlock reached' in out and not r.violation:
